@@ -67,11 +67,11 @@ def twosided_2_onesided(data):
         array([ 10.,   4.,   6.,   8.])
 
     """
-    assert len(data) % 2 == 0
     N = len(data)
     psd = np.array(data[0:N//2+1]) * 2.
     psd[0] /= 2.
-    psd[-1] = data[-1]
+    if N % 2 == 0:
+        psd[-1] /= 2.
     return psd
 
 
@@ -89,26 +89,21 @@ def onesided_2_twosided(data):
         array([ 10.,   2.,   3.,   3., 2., 8.])
 
     """
-    psd = np.concatenate((data[0:-1], cshift(data[-1:0:-1], -1)))/2.
+    data = np.asarray(data)
+    psd = np.concatenate((data, data[-2:0:-1]))/2.
     psd[0] *= 2.
-    psd[-1] *= 2.
+    psd[len(data)-1] *= 2.
     return psd
 
 
 def twosided_2_centerdc(data):
     """Convert a two-sided PSD to a center-dc PSD"""
-    N = len(data)
-    # could us int() or // in python 3
-    newpsd = np.concatenate((cshift(data[N//2:], 1), data[0:N//2]))
-    newpsd[0] = data[-1]
-    return newpsd
+    return np.fft.fftshift(data)
 
 
 def centerdc_2_twosided(data):
     """Convert a center-dc PSD to a twosided PSD"""
-    N = len(data)
-    newpsd = np.concatenate((data[N//2:], (cshift(data[0:N//2], -1))))
-    return newpsd
+    return np.fft.ifftshift(data)
 
 
 def twosided(data):
